@@ -110,6 +110,9 @@ pub enum Extra {
     Dir(String),
     /// symbolic link `name` -> `target` (the target need not exist)
     Symlink(String, String),
+    /// a complete data directory (blk files, index, key file) in the sub-directory `name` of this one: a copy nested into
+    /// itself by a careless `cp -r` / `rsync` without the trailing slash
+    Nested(String, Box<World>),
 }
 
 #[derive(Clone, Debug)]
@@ -149,12 +152,24 @@ impl World {
     /// whether the block belongs to the active chain or where its data is.
     pub fn add_block(&mut self, n: u64, height: u64, b: &Block) -> IndexRec {
         let extra = if height % 2 == 1 { OPT_WITNESS } else { 0 } | if height % 4 == 3 { 0x100 } else { 0 };
-        self.add_block_status(n, height, b, if height == 0 { VALID_SCRIPTS | HAVE_DATA } else { ACTIVE | extra })
+        // one height in six is a connected block whose record carries no undo position (the three position fields of a record
+        // are present independently of each other: file number if data or undo, data offset if data, undo offset if undo)
+        let base = if height % 6 == 2 { VALID_SCRIPTS | HAVE_DATA } else { ACTIVE };
+        self.add_block_status(n, height, b, if height == 0 { VALID_SCRIPTS | HAVE_DATA } else { base | extra })
+    }
+    /// As `add_block`, with the record's 4-byte length field set to `prefix` (readers locate blocks by the index and decode
+    /// them from the stream; the field says how much room the writer reserved, not how long the block is).
+    pub fn add_block_prefixed(&mut self, n: u64, height: u64, b: &Block, prefix: u32) -> IndexRec {
+        let raw = b.ser();
+        let pos = self.place_raw(n, &raw, prefix);
+        let r = IndexRec { hash: b.hash(), client_version: 270000, height, status: if height == 0 { VALID_SCRIPTS | HAVE_DATA } else { ACTIVE }, ntx: b.txs.len() as u64, file: n, data_pos: pos, undo_pos: 8 + (height % 1_000_000) * 100, header: b.header.ser() };
+        self.put_rec(&r);
+        r
     }
     pub fn add_block_status(&mut self, n: u64, height: u64, b: &Block, status: u64) -> IndexRec {
         let raw = b.ser();
         let pos = self.place_raw(n, &raw, raw.len() as u32);
-        let r = IndexRec { hash: b.hash(), client_version: 270000, height, status, ntx: b.txs.len() as u64, file: n, data_pos: pos, undo_pos: 8 + height * 100, header: b.header.ser() };
+        let r = IndexRec { hash: b.hash(), client_version: 270000, height, status, ntx: b.txs.len() as u64, file: n, data_pos: pos, undo_pos: 8 + (height % 1_000_000) * 100, header: b.header.ser() };
         self.put_rec(&r);
         r
     }
@@ -231,6 +246,7 @@ impl World {
                 Extra::File(n, c) => json!(["file", n, hex(c)]),
                 Extra::Dir(n) => json!(["dir", n]),
                 Extra::Symlink(n, t) => json!(["symlink", n, t]),
+                Extra::Nested(n, w) => json!(["nested", n, w.describe()]),
             })
             .collect();
         json!({"coin": self.coin.name, "files": files, "index_ops": ops, "xor_key": self.xor_key.as_ref().map(|k| hex(k)), "extra": extra})
@@ -261,6 +277,7 @@ impl World {
             match e[0].as_str().unwrap() {
                 "file" => w.extra.push(Extra::File(e[1].as_str().unwrap().to_string(), unhex(e[2].as_str().unwrap()))),
                 "symlink" => w.extra.push(Extra::Symlink(e[1].as_str().unwrap().to_string(), e[2].as_str().unwrap().to_string())),
+                "nested" => w.extra.push(Extra::Nested(e[1].as_str().unwrap().to_string(), Box::new(World::from_description(&e[2])))),
                 _ => w.extra.push(Extra::Dir(e[1].as_str().unwrap().to_string())),
             }
         }
@@ -295,6 +312,7 @@ impl World {
                     let _ = fs::remove_file(dir.join(n));
                     std::os::unix::fs::symlink(t, dir.join(n))?
                 }
+                Extra::Nested(n, w) => w.materialise(&dir.join(n))?,
             }
         }
         write_index(&dir.join("index"), &self.index_ops).map_err(|e| std::io::Error::new(std::io::ErrorKind::Other, format!("leveldb: {}", e)))?;
